@@ -143,13 +143,25 @@ fn case_typed<F: Family>(input: &Input, ctx: &mut Ctx) -> CaseResult {
     prefixes::<F>(&p, &mut t, ctx)
 }
 
+/// boundary-size constructions (sized.rs): cuts at every field boundary, the last bytes and tape-chosen positions
+fn case_sized<F: Family>(input: &Input, ctx: &mut Ctx) -> CaseResult {
+    let seed: Vec<u16> = input.nums().iter().map(|x| (*x as u16).wrapping_mul(40_503)).chain([0x7000u16, 0x1234, 0xC000, 0x4000, 0xA000, 0xE000].into_iter()).collect();
+    let mut t = Tape::new(&seed);
+    match crate::sized::from_input::<F>(input, ctx) {
+        Some(p) => prefixes::<F>(&p, &mut t, ctx),
+        None => Ok(()),
+    }
+}
+
+pub const SUB_S3: Sub = Sub { name: "c07.sized.v3", f: case_sized::<V3> };
+pub const SUB_S5: Sub = Sub { name: "c07.sized.v5", f: case_sized::<V5> };
 pub const SUB_V3: Sub = Sub { name: "c07.cuts.v3", f: case::<V3> };
 pub const SUB_V5: Sub = Sub { name: "c07.cuts.v5", f: case::<V5> };
 pub const SUB_T3: Sub = Sub { name: "c07.typed.v3", f: case_typed::<V3> };
 pub const SUB_T5: Sub = Sub { name: "c07.typed.v5", f: case_typed::<V5> };
 
 pub fn subs() -> Vec<Sub> {
-    vec![SUB_V3, SUB_V5, SUB_T3, SUB_T5]
+    vec![SUB_V3, SUB_V5, SUB_T3, SUB_T5, SUB_S3, SUB_S5]
 }
 
 pub fn run(env: &mut Env) -> RunResult {
@@ -158,6 +170,19 @@ pub fn run(env: &mut Env) -> RunResult {
     env.run_tapes(SUB_V5, n * 2, 220)?;
     env.run_tapes(SUB_T3, n / 2, 120)?;
     env.run_tapes(SUB_T5, n, 220)?;
+    // sized constructions up to 2 MiB (quick) / 20 MB (thorough); property constructions of 2 MiB for three types
+    let lim = env.tier.sel(3_000_000u64, 21_000_000u64);
+    for (sub, fam) in [(SUB_S3, model::Fam::V3), (SUB_S5, model::Fam::V5)] {
+        let cs: Vec<Input> = crate::sized::cases(fam, env.thorough())
+            .into_iter()
+            .filter(|c| c[2] <= lim && !(c[0] == crate::sized::K_PROPS && c[2] >= 2_000_000 && !matches!(c[1], 1 | 2 | 13)))
+            .map(|c| Input::Nums(c.to_vec()))
+            .collect();
+        let n = cs.len() as u64;
+        env.run_enum(sub, n, false, move |i| cs[i as usize].clone())?;
+    }
+    env.require("c07.sized.v3", "sized:2MiB-boundary");
+    env.require("c07.sized.v5", "sized:2MiB-boundary");
     for s in ["c07.cuts.v3", "c07.cuts.v5"] {
         for l in ["cut:remaining-length", "cut:string-or-binary-data", "cut:length-prefix", "cut:payload", "suffix-ignored"] {
             env.require(s, l);
